@@ -142,21 +142,29 @@ class Engine:
 
     # ------------------------------------------------------------------ heap primitives
     def read_attr(self, st, ref_t, owner, attr, kind):
-        arr = st.heap.get(("attr", owner, attr, kind))
+        key = ("attr", owner, attr, kind)
+        arr = st.heap.get(key)
         t = z3.Select(arr, ref_t)
         v = from_sort(kind, t)
-        self.assume_wellformed(st, v)
+        self.assume_wellformed(st, v, pristine=arr.eq(st.heap.initial.get(key)), holder=ref_t)
         return v
 
     def write_attr(self, st, ref_t, owner, attr, kind, val):
         arr = st.heap.get(("attr", owner, attr, kind))
         st.heap.set(("attr", owner, attr, kind), z3.Store(arr, ref_t, self.coerce(st, val, kind)))
 
-    def assume_wellformed(self, st, v):
+    def assume_wellformed(self, st, v, pristine=False, holder=None):
         """Facts true of every value read from a real heap: references point to allocated objects,
-        object refs carry a class compatible with their static kind."""
+        object refs carry a class compatible with their static kind.  A value read from a component
+        that this path has not written yet (`pristine`) and held by an object that existed at entry
+        can only refer to objects that existed at entry."""
         if st.spec:
             return
+        if pristine and holder is not None:
+            rt = v.t if isinstance(v, (SRef, SOptRef)) else (PyVal.rval(v.t) if isinstance(v, SDyn) else None)
+            if rt is not None:
+                isref = PyVal.is_RefV(v.t) if isinstance(v, SDyn) else z3.BoolVal(True)
+                st.assume(z3.Implies(z3.And(holder < st.alloc0, isref), rt < st.alloc0))
         if isinstance(v, SRef):
             st.assume(z3.And(v.t > 0, v.t < st.alloc))
             if v.kind.startswith("ref:"):
@@ -217,6 +225,9 @@ class Engine:
     def list_get(self, st, lv, i_t):
         ek = lv.kind[5:]
         v = from_sort(ek, z3.Select(self.list_elems(st, lv), i_t))
+        key = ("elems", self.list_fam(lv))
+        if not st.spec and st.heap.get(key).eq(st.heap.initial.get(key)):
+            self.assume_wellformed(st, v, pristine=True, holder=lv.t)
         return v
 
     def list_set_all(self, st, lv, len_t, elems_t, joined=None):
@@ -274,7 +285,9 @@ class Engine:
             return
         fn = where or self.cur_fn
         name = f"{fn}/{kind}#{clause}"
-        self.obligations.append(Obligation(name, kind, list(st.pc) + self.global_axioms, goal, note, props))
+        ob = Obligation(name, kind, list(st.pc) + self.global_axioms, goal, note, props)
+        ob.trace = list(st.trace)
+        self.obligations.append(ob)
 
     def feasible(self, st, cond):
         if st.spec:
@@ -654,7 +667,8 @@ class Engine:
 
     def ev_List(self, e, st, fr, k):
         def got(s, vs):
-            ek = bm.join_kinds([v.kind for v in vs]) if vs else fr_hint(e, "any")
+            hint = getattr(e, "_elemkind", None)
+            ek = hint if hint is not None else (bm.join_kinds([v.kind for v in vs]) if vs else "any")
             return k(s, self.new_list(s, ek, vs))
         def fr_hint(node, default):
             return getattr(node, "_elemkind", default)
@@ -904,6 +918,11 @@ class Engine:
     def ex_Return(self, n, st, fr, k):
         if n.value is None:
             return [(st, "return", SNone())]
+        if isinstance(n.value, ast.List) and fr.finfo is not None:
+            c = self.contracts.get(fr.finfo.qualname)
+            rk = c.sorts.get("result") if c else None
+            if rk and rk.startswith("list:"):
+                n.value._elemkind = rk[5:]
         return self.ev(n.value, st, fr, lambda s, v: [(s, "return", v)])
 
     def ex_Break(self, n, st, fr, k):
